@@ -419,7 +419,7 @@ def exec_run(run, max_skips=12):
         ce = crash_ev[-1] if crash_ev else {}
         crash = {"prop": ce.get("prop", ""), "config": ce.get("config", ""), "step": ce.get("step"),
                  "op": ce.get("op", ""), "sig": ce.get("sig"), "rc": rc,
-                 "kind": san[0] if san else ("signal-%s" % ce.get("sig") if ce else "exit-%s" % rc),
+                 "kind": san[0] if san else (("hang" if ce.get("sig") == 26 else "signal-%s" % ce.get("sig")) if ce else "exit-%s" % rc),
                  "site": san[1] if san else "unknown",
                  "report": san[2] if san else err[-3000:], "skips": list(skips)}
         run.crashes.append(crash)
